@@ -41,6 +41,9 @@ def miri_label(v):
 
 def extra(ver):
     prop, tier = ver.prop, ver.tier
+    if os.environ.get("VERIF_NO_EXTRA"):
+        ver.extra["extra_engines_skipped"] = "VERIF_NO_EXTRA set (native engines only)"
+        return
     miri = (MIRI_QUICK if tier == "quick" else MIRI_THOROUGH).get(prop, [])
     seeds = 1 if tier == "quick" else 3
     for v in miri:
